@@ -285,6 +285,51 @@ def drawn_cases(draw):
 
 
 
+
+# ------------------------------------------------------------------ source_len that is not the length of the stream
+def length_cases():
+  for size in (1, CHUNK - 1, CHUNK, CHUNK + 1, 2 * CHUNK + 1):
+    for extra in (1, CHUNK, 3 * CHUNK + 5):          # the stream goes on after the image (a container with a trailer)
+      yield {'lencase': 1, 'size': size, 'stream': size + extra}
+    for missing in (1, size):                        # the stream ends before source_len bytes were read
+      yield {'lencase': 1, 'size': size, 'stream': size - missing}
+
+
+def check_length(case):
+  """download(stream, source_len=n) where the stream holds more, or fewer, than n bytes: the device is told n, accepts n;
+  exactly the first n bytes go out (more available), or the call fails (fewer available) - in bounded time, with no chunk
+  above the chunk size and never more than n bytes."""
+  r = CaseResult()
+  m = fk.load()
+  fp = m.fastboot_protocol
+  fp.FASTBOOT_DOWNLOAD_CHUNK_SIZE_KB = 1
+  size, have = case['size'], case['stream']
+  content = image(max(size, have))[:have]
+  dev = fk.ScriptedBootloader(['DATA%08x' % size, 'OKAYdone'])
+  try:
+    got = ('ok', fp.FastbootCommands(dev).download(io.StringIO(content), source_len=size))
+  except fk.RunawayError as e:
+    got = ('runaway', str(e))
+  except Exception as e:  # pylint: disable=broad-except
+    got = ('exc', type(e).__name__, str(e)[:80])
+  data = dev.packets[1:]
+  r.nontrivial = True
+  r.classes = ['source-len-vs-stream', 'longer' if have > size else 'shorter', 'size:%d' % size]
+  if got[0] == 'runaway':
+    r.bad('C16/length/transfer-never-ends', '%r: %s; packet sizes %r ...' % (case, got[1], [len(p) for p in data[:6]]))
+    return r
+  if sum(len(p) for p in data) > size:
+    r.bad('C16/length/more-than-announced-sent', '%r: announced %d bytes, sent %d' % (case, size, sum(len(p) for p in data)))
+  if any(len(p) > CHUNK for p in data):
+    r.bad('C16/length/chunk-too-large', '%r: %r' % (case, [len(p) for p in data]))
+  if have > size:
+    if got != ('ok', 'done') or ''.join(data) != content[:size]:
+      r.bad('C16/length/image-bytes', '%r: result %r, %d bytes sent, the image is the first %d bytes of the stream' % (case, got, len(''.join(data)), size))
+  elif got[0] == 'ok':
+    r.bad('C16/length/short-stream-reported-as-success', '%r: only %d of %d bytes existed, download() returned %r' % (case, have, size, got[1]))
+  return r
+
+
 # ------------------------------------------------------------------ retried commands (FastbootDevice with num_retries >= 1)
 def retry_cases():
   for size in (1, CHUNK - 1, CHUNK, CHUNK + 1, 2 * CHUNK + 1):
@@ -435,6 +480,7 @@ def plan(tier, seed):
     jobs.append({'kind': 'hyp', 'name': 'hyp%d' % i, 'hseed': seed * 1000 + i, 'n': 800 if tier == 'quick' else 20000})
   jobs.append({'kind': 'flaginit', 'name': 'flaginit'})
   jobs.append({'kind': 'retry', 'name': 'retry'})
+  jobs.append({'kind': 'length', 'name': 'length'})
   return jobs
 
 
@@ -443,6 +489,13 @@ def run_job(job, acct):
   if job['kind'] == '_regress':
     from vf import runner  # pylint: disable=g-import-not-at-top
     runner.run_regress(sys.modules[__name__], job, acct)
+  elif job['kind'] == 'length':
+    for case in length_cases():
+      r = check_length(case)
+      acct.case(case, r.nontrivial, r.classes)
+      for sig, detail in r.violations:
+        (acct.known if sig in known else acct.violation)(sig, case, detail)
+    acct.exhaustive_parts.append('source_len vs stream length: 5 sizes x {1, chunk, 3 chunks+5 more; 1 or all bytes missing}')
   elif job['kind'] == 'retry':
     for case in retry_cases():
       r = check_retry(case)
@@ -484,6 +537,8 @@ def run_job(job, acct):
 
 
 def replay(case):
+  if case.get('lencase'):
+    return check_length(case).violations
   if case.get('retry'):
     return check_retry(case).violations
   if case.get('flaginit'):
